@@ -506,6 +506,10 @@ func (fs *FuncSpec) addClause(t, file string, ln int) error {
 		if isSend {
 			r = strings.TrimSpace(strings.TrimPrefix(rest, "send "))
 		}
+		isMapUpd := strings.HasPrefix(rest, "mapupdate ")
+		if isMapUpd {
+			r = strings.TrimSpace(strings.TrimPrefix(rest, "mapupdate "))
+		}
 		i := strings.Index(r, ":")
 		if i < 0 {
 			return fmt.Errorf("at call NAME#K: assert e")
@@ -513,6 +517,9 @@ func (fs *FuncSpec) addClause(t, file string, ln int) error {
 		point := strings.TrimSpace(r[:i])
 		if isSend {
 			point = "send:" + point
+		}
+		if isMapUpd {
+			point = "mapupdate:" + point
 		}
 		body := strings.TrimSpace(r[i+1:])
 		ord := -1
